@@ -1,15 +1,30 @@
 // C15 — crash consistency of the two-slot root + append-only data file (libc linear storage).
 // Child module of aranya_runtime::storage::linear::libc::imp (sees Writer/Root/File privates).
+// Group `runtime_crash` (checks/groups.d/C15.json): imp.rs's `libc::` calls reach the byte-array
+// file of harness/runtime/vfile.rs through an import rewrite of the scratch copy.
 //
 // Shape of every harness:
-//   1. run a CONCRETE multi-commit workload through the REAL Writer::{create, append, commit}
-//      on the byte-array file of harness/runtime/vfile.rs; every fallocate/pwrite/fsync/fdatasync
-//      is recorded in program order (nothing symbolic yet: symbolic execution just runs the code);
+//   1. run a CONCRETE multi-commit workload through the REAL Writer::{create, append_at, commit}
+//      (and, for the restart harnesses, the real Writer::open) on the model file; every
+//      fallocate/pwrite/fsync/fdatasync is recorded in program order.  Nothing is symbolic yet:
+//      symbolic execution just runs the code and the trace is a table of constants;
 //   2. choose a SYMBOLIC crash point `n` (number of recorded calls that completed) and a SYMBOLIC
 //      fate for every write that no completed fsync/fdatasync covers: lost, whole, first `cut`
-//      bytes only, or all but the first `cut` bytes; build the crash image from the trace;
-//   3. run the REAL Writer::open (File::load, postcard decode, Root::validate incl. SipHash,
-//      generation comparison) on the crash image and assert the property.
+//      bytes only, or all but the first `cut` bytes (`cut` symbolic); build the crash image;
+//   3. run the REAL Writer::open (File::load, postcard decode, Root::validate incl. SipHash on the
+//      symbolic bytes, generation comparison, slot choice) on the crash image and assert:
+//        - open fails only if no commit had returned;
+//        - otherwise the recovered (heads offset, fact-cache offset) are those of the last commit
+//          that returned or of the commit that was in progress;
+//        - every byte below that commit's write frontier is on the disk, unchanged;
+//        - the recovered frontier is exactly that commit's end (later appends are unreachable and
+//          get overwritten), and the next commit targets the other root slot.
+//
+// Two #[kani::stub]s are needed (so Kani's concrete playback is not available; the failing crash
+// scenario has to be read from the CBMC trace and can be replayed by hand against the same model,
+// which is plain Rust and also compiles natively):
+//   - <StorageError as From<buggy::Bug>>::from -> panic (dead code under Kani, see no_bug_values);
+//   - aranya_libc::sys::unix::close -> Ok(()) (drop of the model's fake descriptor).
 use super::*;
 use crate::{
     __vfile::{self as vf, Img},
@@ -443,8 +458,13 @@ fn check_open<E: Mode>(img: &Img, ghost: &Img, n: usize, c: &[Commit; 4], k: usi
 }
 
 /// Under Kani `buggy::Bug::new` panics (debug assertions), so no `Bug` value ever exists and
-/// this conversion is dead code; cutting it here keeps CBMC's symbolic execution from carrying
-/// the (infeasible) error return of every `.assume(..)?` as an if-then-else into all later values.
+/// this conversion is dead code.  Why it has to be cut: `File::write_all` / `read_exact` end with
+/// `buf.get(n..)` where `n == buf.len()`, a one-past-the-end pointer; CBMC's simplifier does not
+/// fold "that pointer != NULL", so for symbolic execution the niche test of the
+/// `Result<&[u8], Bug>` produced by `.assume(..)` is undecided, the (infeasible) `Err(Bug)` return
+/// is carried along and merged as an if-then-else into every later value (offsets, lengths, loop
+/// bounds stop being constants; measured: 3 GB and no end in the first commit).  Panicking here
+/// aborts that path before it merges.
 fn no_bug_values(_b: buggy::Bug) -> StorageError {
     panic!("a buggy::Bug value exists under Kani")
 }
